@@ -26,7 +26,7 @@ def shapes(quick):
     for n in range(0, 6): out.append((12, [n]))
     for npos in (0, 3, 13): out.append((npos, [5]))
     out += [(6, [6]), (3, [6]), (12, [0, 5]), (12, [5, 0]), (12, [3, 3]), (6, [5, 3]), (3, [5, 5])]
-    if not quick: out += [(12, [6]), (3, [7]), (0, [8]), (6, [6, 4]), (12, [1, 6]), (6, [3, 3, 3]), (3, [4, 0, 4])]
+    if not quick: out += [(3, [7]), (12, [1, 5]), (6, [3, 3, 3]), (3, [4, 0, 4])]
     return out
 
 def concrete_of(model, npos, lens):
@@ -108,7 +108,7 @@ def main(chk):
                         'operator new of more than 2^31 bytes throws std::bad_alloc; smaller requests succeed',
                         'the point array holds any number of doubles (get_node_pos only guarantees size/3 == declared count)']
     SH = shapes(quick)
-    chk.bounds = {'cells': '1-2 (3 thorough)', 'entries per list': '0..%d, every entry symbolic' % (6 if quick else 8), 'points': '0, 1, 2, 4 (+1 stray coordinate); shapes: ' + ', '.join('%d pts x %r' % (a // 3, b) for a, b in SH),
+    chk.bounds = {'cells': '1-2 (3 thorough)', 'entries per list': '0..%d, every entry symbolic' % (6 if quick else 7), 'points': '0, 1, 2, 4 (+1 stray coordinate); shapes: ' + ', '.join('%d pts x %r' % (a // 3, b) for a, b in SH),
                   'outside': 'regex/getline/stoi/strtod tokenisation, tinyxml2, get_cell_types, simulation_initializer cross-checks, triangulation of the accepted meshes, memory consumption of reserve() on huge declared counts'}
 
     # ---- translator validation: concrete lists, irsym vs native ---------------------------------------------------------------------
@@ -131,7 +131,7 @@ def main(chk):
     chk.functions |= sconc.functions_called
 
     # ---- symbolic exploration ------------------------------------------------------------------------------------------------------
-    outs = par.pmap(lambda i: run_shape(ir, SH[i][0], SH[i][1], tmo, 4000 if quick else 30000), len(SH), procs=14)
+    outs = par.pmap(lambda i: run_shape(ir, SH[i][0], SH[i][1], tmo, 4000 if quick else 16000), len(SH), procs=14)
     seen = set()
     for o in outs:
         chk.paths += o['paths']; chk.queries += o['queries']; chk.solver_s += o['solver_s']; chk.witnesses += o['witness']
